@@ -370,11 +370,16 @@ loop:
 
 var reFn = regexp.MustCompile(`^  (\S.*)\(\)$`)
 var reLoc = regexp.MustCompile(`^      (\S+):(\d+)`)
-var reGoFn = regexp.MustCompile(`^(\S.*?)\(.*\)$`)
+var reGoFn = regexp.MustCompile(`^(\S.*)\([^()]*\)$`)
 
+// shortFn marks functions of the repository under test with a leading "@" (code sites are chosen among those)
 func shortFn(fn string) string {
-	fn = strings.TrimPrefix(fn, "github.com/hydraide/hydraide/app/")
-	fn = strings.TrimPrefix(fn, "github.com/hydraide/hydraide/")
+	if strings.HasPrefix(fn, "github.com/hydraide/hydraide/app/") {
+		return "@" + strings.TrimPrefix(fn, "github.com/hydraide/hydraide/app/")
+	}
+	if strings.HasPrefix(fn, "github.com/hydraide/hydraide/") {
+		return "@" + strings.TrimPrefix(fn, "github.com/hydraide/hydraide/")
+	}
 	return fn
 }
 
